@@ -277,6 +277,60 @@ pub fn nats(v: &[usize]) -> String {
     v.iter().map(|x| x.to_string()).collect::<Vec<_>>().join(",")
 }
 
+/// Direct oracle of the capacity contract (C08) for the HashSet / HashTable wrappers, evaluated on
+/// `(len, capacity, allocation_size)` of the real collection before and after a call that returned.
+pub fn cap_oracle(name: &str, args: &[&str], ret: &str, before: (usize, usize, usize), after: (usize, usize, usize)) -> Option<String> {
+    let n = |i: usize| -> u128 { args.get(i).and_then(|x| x.parse::<u128>().ok()).unwrap_or(0) };
+    let (blen, bcap, basz) = before;
+    let (len, cap, asz) = after;
+    if ret.starts_with("panic") {
+        return None;
+    }
+    if cap < len {
+        return Some(format!("capacity {} < len {} after {}", cap, len, name));
+    }
+    match name {
+        "reserve" => {
+            if (cap as u128) < len as u128 + n(0) {
+                return Some(format!("after reserve({}) capacity {} < len {} + n", n(0), cap, len));
+            }
+        }
+        "try_reserve" if ret == "ok" => {
+            if (cap as u128) < len as u128 + n(0) {
+                return Some(format!("try_reserve({}) = Ok but capacity {} < len {} + n", n(0), cap, len));
+            }
+        }
+        "with_capacity" => {
+            if (cap as u128) < n(0) {
+                return Some(format!("with_capacity({}) gives capacity {}", n(0), cap));
+            }
+        }
+        "shrink_to" | "shrink_to_fit" => {
+            let m = if name == "shrink_to" { n(0) } else { 0 };
+            if len != blen {
+                return Some(format!("{} changed len {} -> {}", name, blen, len));
+            }
+            if asz > basz {
+                return Some(format!("{} enlarged the allocation {} -> {} bytes", name, basz, asz));
+            }
+            let floor = std::cmp::max(len as u128, std::cmp::min(m, bcap as u128));
+            if (cap as u128) < floor {
+                return Some(format!("after {}({}) capacity {} < max(len {}, min(m, old capacity {}))", name, m, cap, len, bcap));
+            }
+            if len == 0 && m == 0 && asz != 0 {
+                return Some(format!("{} of an empty collection kept {} bytes", name, asz));
+            }
+        }
+        "clear" => {
+            if asz != basz || len != 0 {
+                return Some("clear did not keep the allocation / empty the collection".into());
+            }
+        }
+        _ => {}
+    }
+    None
+}
+
 thread_local! {
     /// Exactness / fusedness complaints about OWNING iterators (drain, into_iter, into_keys, into_values)
     /// collected while an operation runs; appended to its observation by the runner.
@@ -357,6 +411,12 @@ where
     if cl.next().is_some() || cl.next().is_some() {
         flags.push_str(" NOT-FUSED");
     }
+    // direct oracle (C09): fold = repeated next from the same point; next-prefix + fold visits exactly
+    // as many elements as the iterator announced at the start
+    // (bucket indices of zero-sized elements all print as 0, so distinctness is left to the reference oracle)
+    if folded != rest || pre.len() + folded.len() != hints[0] {
+        flags.push_str(" FOLD-MISMATCH");
+    }
     format!(
         "pre={} fold={} rest={} sh={}{}",
         nats(&pre),
@@ -396,6 +456,9 @@ where
         acc.push(idx(&x));
         acc
     });
+    if pre.len() + folded.len() != hints[0] {
+        flags.push_str(" FOLD-MISMATCH");
+    }
     format!(
         "pre={} fold={} rest={} sh={}{}",
         nats(&pre),
